@@ -205,8 +205,26 @@ pub fn check_sinks_and_moves(h: &History, tmpdir: &str, obs: &mut Obs) -> Vec<Vi
         let runs = std::thread::scope(|sc| {
             sc.spawn(|| {
                 let mut runs = Vec::new();
-                for k in [0usize, 1, 2, 3, 6, usize::MAX, usize::MAX - 1] {
-                    if k == usize::MAX - 1 {
+                for k in [0usize, 1, 2, 3, 6, usize::MAX, usize::MAX - 1, usize::MAX - 2] {
+                    if k == usize::MAX - 2 {
+                        // an earlier muxer whose SINK panicked in the middle of finish (caught by
+                        // the caller, as a supervisor thread would)
+                        struct PanicSink(usize);
+                        impl Write for PanicSink {
+                            fn write(&mut self, buf: &[u8]) -> std::io::Result<usize> {
+                                if self.0 == 0 {
+                                    panic!("sink panicked (injected)");
+                                }
+                                self.0 -= 1;
+                                Ok(buf.len())
+                            }
+                            fn flush(&mut self) -> std::io::Result<()> {
+                                Ok(())
+                            }
+                        }
+                        // (every public call is made under catch_unwind by the executor)
+                        let _ = run_on(PanicSink(1), h, &ExecOpts::default(), &no_seq);
+                    } else if k == usize::MAX - 1 {
                         // a COMPLETED earlier recording with another cadence (every timestamp
                         // stretched by 25 %), finished and dropped before this one starts
                         let mut other = h.clone();
@@ -383,4 +401,34 @@ pub fn check_paths(h: &History, obs: &mut Obs) -> Vec<Violation> {
         }
     }
     out
+}
+
+/// Muxers of unusual shapes finalised BEFORE the compared cases in a separate process (VH_PRELUDE):
+/// recordings without frames, with an audio track that never got a frame, every codec, both
+/// layouts, with and without metadata. Whatever they leave behind in process-wide state (caches
+/// filled by the first caller, lazily initialised statics) must not change later results.
+pub fn prelude() {
+    use crate::gen::frames::{audio_frame, video_frame, FrameKind};
+    let mut r = crate::util::Rng::new(0xC17_0001);
+    let no_seq = |_q: u32| {};
+    for vc in [H264, H265, AV1, VP9] {
+        for audio in [None, Some(AudioCfg { kind: 1, rate: 44_100, channels: 1 }), Some(AudioCfg { kind: A_OPUS, rate: 48_000, channels: 2 })] {
+            for frames in [0usize, 1] {
+                let mut cfg = Cfg::basic(vc);
+                cfg.audio = audio.clone();
+                cfg.fast_start = Some(frames == 0);
+                cfg.meta = frames == 0;
+                cfg.title = Some("prelude".into());
+                let mut ops = Vec::new();
+                if frames > 0 {
+                    ops.push(Op::wv(0.0, video_frame(&mut r, vc, FrameKind::KeyCfg, 8, false), true));
+                    if let (Some(a), true) = (&audio, vc == AV1) {
+                        ops.push(Op::wa(0.0, audio_frame(&mut r, a, 8)));
+                    }
+                }
+                ops.push(Op::Finish(FinishKind::InPlaceStats));
+                let _ = run_on(Vec::<u8>::new(), &History { cfg, ops }, &ExecOpts::default(), &no_seq);
+            }
+        }
+    }
 }
